@@ -65,6 +65,8 @@ def gen_history(rnd, n, profile=None):
                 ts.insert(rnd.randrange(len(ts) + 1), {"name": rnd.choice(DEAD_TARGETS), "healthy": False})
             if rnd.random() < 0.1:
                 ts.append({"name": rnd.choice(BAD_TARGETS), "healthy": True})
+            if rnd.random() < 0.08:
+                ts = []                       # legal: an empty rollout target list
             hist.append({"op": "rollout_deploy", "name": name, "targets": ts})
         elif k == "rollout_set":
             hist.append({"op": "rollout_set", "name": name, "pct": rnd.choice([0, 100, 100]),
@@ -245,7 +247,8 @@ def row_term(name_hex, d):
 
 def req_term(q):
     uri = q["uri"]
-    path = uri.split(b"?", 1)[0]
+    from urllib.parse import unquote_to_bytes
+    path = unquote_to_bytes(uri.split(b"?", 1)[0])     # r.URL.Path is the decoded path
     return "mkReq %s %s %s %s %s %s" % (str_lit(q["host"]), str_lit(path), str_lit(uri), bool_lit(q["method"] == "GET"),
                                         bool_lit(q["tls"]),
                                         "None" if q["cookie"] is None else "(Some %s)" % str_lit(q["cookie"]))
